@@ -4,9 +4,9 @@
 #  (no git stash: the stash is shared by all worktrees of a repository)
 id=$1; rx=$2; wt=${WT:-/tmp/seed_$id}; cd $wt || exit 2
 P=$wt/_seed/patch.diff
-run_demo() { bash -c "$(python3 -c "import json;print(json.load(open('$wt/_seed/meta.json'))['demo_build_and_run'].split('#')[0].replace('; echo exit=\$?',''))")" > $wt/_seed/demo.$1.log 2>&1; echo $?; }
+run_demo() { bash -c "$(python3 -c "import json;print(json.load(open('$wt/_seed/meta.json'))['demo_build_and_run'].split('#')[0].replace('; echo exit=\$?','').split('[port')[0])")" > $wt/_seed/demo.$1.log 2>&1; echo $?; }
 build() { cmake --build $wt/_build -j6 2>&1 | tail -1; }
-tests() { ctest --test-dir $wt/_build -R "$rx" --timeout 300 2>&1 | grep -E "tests passed|Failed|Passed" | sed 's/ *[0-9.]* sec//' | sort > $wt/_seed/tests.$1.log; }
+tests() { unshare -rn sh -c "ip link set lo up; exec ctest --test-dir $wt/_build -R '$rx' --timeout 300" 2>&1 | grep -E "tests passed|Failed|Passed" | sed 's/ *[0-9.]* sec//' | sort > $wt/_seed/tests.$1.log; }
 git checkout -q -- . ; git apply $P || { echo "patch does not apply"; exit 2; }
 build; with=$(run_demo with); tests with
 git apply -R $P; build; without=$(run_demo without); tests without
